@@ -211,6 +211,15 @@ METERS = [[2, 4], [3, 4], [4, 4], [5, 4], [6, 8], [3, 8], [7, 8], [9, 8], [12, 8
 
 def gen_note(rng, channel=None, exotic=0.15, lo=0, hi=115, vel_lo=0):
     """A note spec whose pitch+12 lies in 0..127."""
+    if rng.random() < 0.06:
+        # the edges of the MIDI range: pitch+12 of 0, 1, 126, 127 and channel 0 / 15
+        name, octave = rng.choice([("C", 0), ("C#", 0), ("Db", 0), ("B#", -1), ("G", 9), ("F#", 9), ("Gb", 9), ("F##", 9), ("Abb", 9)])
+        if name == "B#":
+            name, octave = "C", 0
+        p = score.pitch_of(name, octave)
+        if lo <= p <= hi:
+            ch = channel if channel is not None else rng.choice([0, 15])
+            return [name, octave, ch, rng.choice([vel_lo, 1, 127, 64])]
     for _ in range(100):
         name = rng.choice(NAMES_EXOTIC) if rng.random() < exotic else rng.choice(NAMES_SIMPLE)
         octave = rng.choice([0, 1, 2, 3, 4, 4, 4, 5, 5, 6, 7, 8, 9])
